@@ -816,3 +816,160 @@ Section DivSum3.
     rewrite H1, H2, H3. ring.
   Qed.
 End DivSum3.
+
+(* ================================================================== conjugate gradient: what it returns *)
+Lemma lsumR_nonneg {P} (F : P -> R) l : (forall q, In q l -> 0 <= F q) -> 0 <= lsumR F l.
+Proof.
+  induction l as [|a l IH]; intros H; [unfold lsumR; cbn; lra|]. rewrite lsumR_cons.
+  specialize (IH (fun q Hq => H q (or_intror Hq))). specialize (H a (or_introl eq_refl)). lra.
+Qed.
+
+Lemma lsumR_zero_terms {P} (F : P -> R) l : (forall q, In q l -> 0 <= F q) -> lsumR F l = 0 ->
+  forall q, In q l -> F q = 0.
+Proof.
+  induction l as [|a l IH]; intros H E q Hq; [destruct Hq|]. rewrite lsumR_cons in E.
+  pose proof (lsumR_nonneg F l (fun q Hq => H q (or_intror Hq))) as Hl.
+  pose proof (H a (or_introl eq_refl)) as Ha.
+  destruct Hq as [->|Hq]; [lra|]. apply IH; auto; [intros q' Hq'; apply H; right; auto | lra].
+Qed.
+
+Section CGProofs.
+  Variable P : Type.
+  Variable peqb : P -> P -> bool.
+  Hypothesis peqb_eq : forall a b, peqb a b = true <-> a = b.
+  Variable pts : list P.
+  Variable A : (P -> R) -> P -> R.
+  Hypothesis A_linear : forall f g c p, A (fun q => f q + c * g q) p = A f p + c * A g p.
+  Hypothesis A_ext : forall f g p, In p pts -> (forall q, In q pts -> f q = g q) -> A f p = A g p.
+
+  Notation tabR := (tab Rops P peqb pts).
+  Notation norm := (l2norm Rops P pts).
+
+  Lemma find_tab (f : P -> R) p : forall l, In p l ->
+    match find (fun e => peqb (fst e) p) (map (fun q => (q, f q)) l) with Some e => snd e | None => 0 end = f p.
+  Proof.
+    induction l as [|a l IH]; intros Hp; [destruct Hp|].
+    cbn [map find fst snd]. destruct (peqb a p) eqn:E.
+    - apply peqb_eq in E. subst a. reflexivity.
+    - destruct Hp as [->|Hp]; [|apply IH; auto].
+      assert (peqb p p = true) by (apply peqb_eq; reflexivity). congruence.
+  Qed.
+
+  Lemma tab_spec f p : In p pts -> tabR f p = f p.
+  Proof. intros Hp. unfold tab. cbv zeta. apply (find_tab f p pts Hp). Qed.
+
+  Lemma norm_eq u : norm u = sqrt (lsumR (fun q => u q * u q) pts).
+  Proof. reflexivity. Qed.
+
+  Lemma norm_ext u v : (forall q, In q pts -> u q = v q) -> norm u = norm v.
+  Proof. intros H. rewrite !norm_eq. f_equal. apply lsumR_ext. intros q Hq. rewrite H by auto. reflexivity. Qed.
+
+  Lemma norm_nonneg u : 0 <= norm u.
+  Proof. rewrite norm_eq. apply sqrt_pos. Qed.
+
+  Lemma norm_zero u : norm u = 0 -> forall q, In q pts -> u q = 0.
+  Proof.
+    intros H q Hq. rewrite norm_eq in H. apply sqrt_eq_0 in H; [|apply lsumR_nonneg; intros; apply sq_nonneg].
+    apply sq_zero. apply (lsumR_zero_terms (fun q => u q * u q) pts); auto. intros; apply sq_nonneg.
+  Qed.
+
+  Lemma cg_eps_pos : 0 < cg_eps Rops.
+  Proof. unfold cg_eps. cbn [ndiv n1 nofZ Rops]. apply Rdiv_lt_0_compat; [lra | apply IZR_lt; lia]. Qed.
+
+  (* r is the residual of x for the right-hand side b, at every grid point *)
+  Definition is_residual (b x r : P -> R) : Prop := forall p, In p pts -> r p = b p - A x p.
+
+  Definition cg_out := ((P -> R) * (P -> R) * (Z * R))%type.
+  Definition out_x (o : cg_out) := fst (fst o).
+  Definition out_r (o : cg_out) := snd (fst o).
+  Definition out_iter (o : cg_out) := fst (snd o).
+  Definition out_err (o : cg_out) := snd (snd o).
+
+  Lemma cg_loop_spec b bnrm tol : forall fuel iter x r p bkden err,
+    is_residual b x r -> (iter = 0%Z \/ err = norm r / bnrm) ->
+    let o := cg_loop Rops P peqb pts A fuel bnrm tol iter x r p bkden err in
+    is_residual b (out_x o) (out_r o) /\
+    (out_iter o = 0%Z \/ out_err o = norm (out_r o) / bnrm) /\
+    (iter <= out_iter o <= iter + Z.of_nat fuel)%Z /\
+    (fuel <> 0%nat -> iter < out_iter o)%Z /\
+    ((out_iter o < iter + Z.of_nat fuel)%Z -> out_err o <= tol) /\
+    (out_iter o = iter -> forall q, out_x o q = x q).
+  Proof.
+    induction fuel as [|fuel IH]; intros iter x r p bkden err Hres Herr; cbv zeta.
+    - cbn [cg_loop]. unfold out_x, out_r, out_iter, out_err. cbn [fst snd].
+      repeat split; auto; try lia.
+    - cbn [cg_loop].
+      set (bknum := vdot Rops P pts r r).
+      set (p' := if (iter + 1 =? 1)%Z then tabR r else tabR (fun q => nadd Rops (nmul Rops (ndiv Rops bknum bkden) (p q)) (r q))).
+      set (z := tabR (A p')).
+      set (ak := ndiv Rops bknum (vdot Rops P pts z p')).
+      set (x' := tabR (fun q => nadd Rops (x q) (nmul Rops ak (p' q)))).
+      set (r' := tabR (fun q => nsub Rops (r q) (nmul Rops ak (z q)))).
+      set (err' := ndiv Rops (l2norm Rops P pts r') bnrm).
+      assert (Hres' : is_residual b x' r').
+      { intros q Hq. unfold r', x', z. rewrite !tab_spec by auto. cbn [nsub nadd nmul Rops].
+        rewrite (A_ext (tabR (fun q0 => x q0 + ak * p' q0)) (fun q0 => x q0 + ak * p' q0) q Hq)
+          by (intros q0 Hq0; apply tab_spec; auto).
+        rewrite A_linear, (Hres q Hq). ring. }
+      assert (Herr' : (iter + 1 = 0)%Z \/ err' = norm r' / bnrm) by (right; reflexivity).
+      destruct (nleb Rops err' tol) eqn:El.
+      + unfold out_x, out_r, out_iter, out_err. cbn [fst snd].
+        cbn [nleb Rops] in El. apply Rleb_true in El.
+        repeat split; auto; try lia.
+      + specialize (IH (iter + 1)%Z x' r' p' bknum err' Hres' Herr'). cbv zeta in IH.
+        destruct IH as [I1 [I2 [I3 [I4 [I5 I6]]]]].
+        repeat split; auto; try lia.
+        intros H. apply I5. lia.
+  Qed.
+
+  Lemma cg_solve_spec itmax tol b x0 err0 :
+    let o := cg_solve Rops P peqb pts A itmax tol b x0 err0 in
+    is_residual b (out_x o) (out_r o) /\
+    (0 <= out_iter o <= Z.of_nat itmax)%Z /\
+    ((1 <= out_iter o)%Z -> out_err o = norm (out_r o) / norm b /\ 0 < norm b) /\
+    ((1 <= out_iter o < Z.of_nat itmax)%Z -> out_err o <= tol) /\
+    (out_iter o = 0%Z -> forall q, out_x o q = x0 q).
+  Proof.
+    cbv zeta. unfold cg_solve.
+    set (r0 := tabR (fun q => nsub Rops (b q) (A x0 q))).
+    assert (Hres : is_residual b x0 r0) by (intros q Hq; unfold r0; rewrite tab_spec by auto; reflexivity).
+    destruct (nltb Rops (l2norm Rops P pts b) (cg_eps Rops)) eqn:El.
+    - unfold out_x, out_r, out_iter, out_err. cbn [fst snd]. repeat split; auto; try lia.
+    - cbn [nltb Rops] in El. apply Rltb_false in El. pose proof cg_eps_pos as Hp.
+      pose proof (cg_loop_spec b (norm b) tol itmax 0%Z x0 r0 r0 (n1 Rops) err0 Hres (or_introl eq_refl)) as H.
+      cbv zeta in H. destruct H as [I1 [I2 [I3 [I4 [I5 I6]]]]].
+      repeat split; auto; try lia.
+      + destruct I2 as [I2|I2]; [lia | exact I2].
+      + lra.
+      + intros H. apply I5. lia.
+  Qed.
+
+  (* the residual certificate: when at least one iteration was made and the reported error is within the
+     tolerance, the value returned solves  A x = b  to that tolerance in the l2 norm *)
+  Lemma cg_residual_certificate itmax tol b x0 err0 :
+    let o := cg_solve Rops P peqb pts A itmax tol b x0 err0 in
+    (1 <= out_iter o)%Z -> out_err o <= tol ->
+    norm (fun q => b q - A (out_x o) q) <= tol * norm b.
+  Proof.
+    cbv zeta. intros Hit Herr.
+    destruct (cg_solve_spec itmax tol b x0 err0) as [I1 [I2 [I3 _]]]. cbv zeta in *.
+    destruct (I3 Hit) as [E Hb].
+    rewrite <- (norm_ext (out_r (cg_solve Rops P peqb pts A itmax tol b x0 err0))) by (intros q Hq; apply I1; auto).
+    rewrite E in Herr. apply (Rmult_le_compat_r (norm b)) in Herr; [|lra].
+    unfold Rdiv in Herr. rewrite Rmult_assoc, Rinv_l, Rmult_1_r in Herr by lra. exact Herr.
+  Qed.
+
+  (* an exact solve (reported error 0): the equation holds at every grid point *)
+  Lemma cg_exact itmax tol b x0 err0 :
+    let o := cg_solve Rops P peqb pts A itmax tol b x0 err0 in
+    (1 <= out_iter o)%Z -> out_err o = 0 -> forall p, In p pts -> A (out_x o) p = b p.
+  Proof.
+    cbv zeta. intros Hit Herr p Hp.
+    destruct (cg_solve_spec itmax tol b x0 err0) as [I1 [I2 [I3 _]]]. cbv zeta in *.
+    destruct (I3 Hit) as [E Hb]. rewrite E in Herr.
+    assert (N0 : norm (out_r (cg_solve Rops P peqb pts A itmax tol b x0 err0)) = 0).
+    { unfold Rdiv in Herr. destruct (Rmult_integral _ _ Herr) as [H|H]; [exact H|].
+      exfalso. apply (Rinv_neq_0_compat (norm b)); [lra | exact H]. }
+    pose proof (norm_zero _ N0 p Hp) as Z0. rewrite (I1 p Hp) in Z0. lra.
+  Qed.
+End CGProofs.
